@@ -30,11 +30,18 @@ PROPERTY = 'C18'
 RULE = ('T expressions / Paths of 0-6 steps over attribute (incl. dunder via T.__()), item, slice, call and wildcard '
         'steps with literal arguments (ints, negative ints, floats, strings with quotes/dots/non-ASCII, bytes, None, '
         'bool, Ellipsis, tuples incl. empty and one-element, frozensets, builtins, nested T), rooted at T, S and A. '
-        'Non-trivial = >= 3 steps of >= 2 kinds, or a non-trivial literal (tuple, slice, quote, nested T, dunder). '
+        'Constructed classes with floors: a slice carrying a builtin in a nested position (call argument, Path segment, '
+        'member of a one-element / nested tuple or list, part of another slice); non-finite floats; literals beyond 1024 '
+        'characters / digits / items (str, bytes, int, tuple, list, dict, nested T); a plain list as a Path segment. '
+        'Non-trivial = >= 3 steps of >= 2 kinds, or a non-trivial literal (tuple, slice, quote, nested T, dunder, any '
+        'constructed class). '
         'index sub-check: the finite domain of index/slice triples is enumerated completely.')
 ASSUMPTIONS = [
     'eval environment = {T, S, A, Path, Spec} + builtins',
-    'arithmetic steps, lambdas and non-finite floats are outside the statement and not generated',
+    'arithmetic steps, lambdas and complex numbers are outside the statement and not generated',
+    'non-finite floats are compared nan-aware (same repr, structurally equal operations, same outcome on the battery; a nan '
+    'key is found by identity only, so T[nan] misses on every battery target for the original and the rebuilt object alike)',
+    'literal sizes stay below 4300 digits (int -> str conversion limit of CPython)',
     'out-of-range slicing is not claimed (out-of-range indexing is)',
 ]
 
@@ -48,6 +55,262 @@ NAMES = ['a', 'b', 'k', 'real', 'upper', 'items']
 DUNDERS = ['__class__', '__len__', '__dict__', '__x']
 
 
+# -- compact literal recipes (this module only; expand_lit() rewrites them into tx's literal grammar before building)
+#   ["fnf", "inf" | "-inf" | "nan"]      a non-finite float
+#   ["srep", unit, n]                    the str unit * n            ["brep", latin1-unit, n]   the bytes unit * n
+#   ["pow10", n, k]                      the int 10 ** n + k         ["pow10", n, k, -1]        its negative
+#   ["rep", "tuple" | "list", [L..], n]  the container of the items, repeated n times
+#   ["drange", n]                        the dict {0: 0, 1: 1, .. n-1: n-1}
+#   ["Trep", root, steps, n]             the nested expression of the steps, repeated n times
+# They keep recipes (and replay files) of the big-literal class small.
+NAN, INF = float('nan'), float('inf')      # one nan object per process: equality of steps holds for it by identity only
+NONFINITE = {'inf': INF, '-inf': -INF, 'nan': NAN}
+LIMIT = 1024          # the size beyond which a shortened repr was observed (F80); classes 'long-*' lie beyond it
+
+
+def expand_lit(r):
+    tag = r[0]
+    if tag == 'fnf':
+        return ['f', NONFINITE[r[1]]]
+    if tag == 'srep':
+        return ['s', r[1] * r[2]]
+    if tag == 'brep':
+        return ['bytes', r[1] * r[2]]
+    if tag == 'pow10':
+        return ['i', (10 ** r[1] + r[2]) * (r[3] if len(r) > 3 else 1)]
+    if tag == 'rep':
+        return [r[1], [expand_lit(x) for x in r[2]] * r[3]]
+    if tag == 'drange':
+        return ['dict', [[['i', k], ['i', k]] for k in range(r[1])]]
+    if tag == 'Trep':
+        return ['T', r[1], expand_steps(r[2]) * r[3]]
+    if tag in ('tuple', 'list', 'fset'):
+        return [tag, [expand_lit(x) for x in r[1]]]
+    if tag == 'dict':
+        return ['dict', [[expand_lit(k), expand_lit(v)] for k, v in r[1]]]
+    if tag == 'slice':
+        return ['slice', [expand_lit(x) if isinstance(x, list) else x for x in r[1]]]
+    if tag == 'T':
+        return ['T', r[1], expand_steps(r[2])]
+    if tag == 'Spec':
+        return ['Spec', expand_lit(r[1])]
+    return r
+
+
+def expand_steps(steps):
+    out = []
+    for s in steps:
+        if s[0] == '[':
+            out.append(['[', expand_lit(s[1])])
+        elif s[0] == '(':
+            out.append(['(', [expand_lit(a) for a in s[1]], [[kw, expand_lit(v)] for kw, v in s[2]]])
+        else:
+            out.append(s)
+    return out
+
+
+def expand_parts(parts):
+    out = []
+    for p in parts:
+        if p[0] == 'P':
+            out.append(['P', expand_lit(p[1])])
+        elif p[0] == 'T':
+            out.append(['T', expand_steps(p[1])])
+        else:
+            out.append(['Path', expand_parts(p[1])])
+    return out
+
+
+# -- which constructed classes a recipe belongs to (labels; measured against the floors) -----------------------------
+
+def _has_builtin(r):
+    return isinstance(r, list) and (r[0] == 'builtin' or (r[0] == 'slice' and any(_has_builtin(x) for x in r[1])))
+
+
+def _step_len(s):
+    """characters a step takes in the text of an expression (a lower bound for the kinds not spelled out here)"""
+    if s[0] == '.' and not s[1].startswith('__'):
+        return 1 + len(s[1])
+    if s[0] == '[' and s[1][0] in ('i', 's'):
+        return 2 + len(repr(s[1][1]))
+    return 2
+
+
+def lit_classes(r, out, direct=False):
+    """direct: the literal is the index of an item step, or a member of an index tuple of two or more (T[a:b, c]) -
+    the two places where a slice is written with colons; everywhere else a slice is NESTED and spelled slice(..)"""
+    tag = r[0]
+    if tag == 'fnf':
+        out.add('float-nonfinite')
+    elif tag in ('srep', 'brep', 'pow10'):
+        if len(repr(tx.build_lit(expand_lit(r)))) > LIMIT:
+            out.add('long-int' if tag == 'pow10' else 'long-str')
+    elif tag == 'rep':
+        if len(r[2]) * r[3] > LIMIT:
+            out.add('long-seq')
+        for x in r[2]:
+            lit_classes(x, out)
+    elif tag == 'drange':
+        if r[1] > LIMIT:
+            out.add('long-seq')
+    elif tag == 'Trep':
+        if 1 + r[3] * sum(_step_len(s) for s in r[2]) > LIMIT:          # len('T.abcd.abcd...')
+            out.add('long-nested-T')
+        steps_classes(r[2], out)
+    elif tag == 'slice':
+        if not direct and any(_has_builtin(x) for x in r[1]):
+            out.add('slice-nested-builtin')
+        for x in r[1]:
+            if isinstance(x, list):
+                lit_classes(x, out)
+    elif tag in ('tuple', 'list', 'fset'):
+        for x in r[1]:
+            lit_classes(x, out, direct and tag == 'tuple' and len(r[1]) > 1)
+    elif tag == 'dict':
+        for k, v in r[1]:
+            lit_classes(k, out)
+            lit_classes(v, out)
+    elif tag == 'T':
+        steps_classes(r[2], out)
+    elif tag == 'Spec':
+        lit_classes(r[1], out)
+
+
+def steps_classes(steps, out):
+    for s in steps:
+        if s[0] == '[':
+            lit_classes(s[1], out, True)
+        elif s[0] == '(':
+            for a in s[1]:
+                lit_classes(a, out)
+            for _, v in s[2]:
+                lit_classes(v, out)
+
+
+def parts_classes(parts, out):
+    for p in parts:
+        if p[0] == 'P':
+            if p[1][0] == 'list':
+                out.add('path-list-segment')
+            lit_classes(p[1], out)
+        elif p[0] == 'T':
+            steps_classes(p[1], out)
+        else:
+            parts_classes(p[1], out)
+    return out
+
+
+SPECIALS = ['slice-nested-builtin', 'float-nonfinite', 'long-str', 'long-int', 'long-seq', 'long-nested-T',
+            'path-list-segment']
+# (the two classes that cost most per case - 1000-item containers, 200-step nested expressions - at half the weight)
+SPECIAL_POOL = [None] * 26 + SPECIALS + [c for c in SPECIALS if c not in ('long-seq', 'long-nested-T')]
+BUILTINS = ['len', 'int', 'str', 'sorted']
+# sizes around the limit (both sides: an off-by-one in a limit shows there) and well beyond it
+LONG_SIZES = st.one_of(st.integers(LIMIT - 6, LIMIT + 12), st.sampled_from([1100, 1500, 2048, 3000]))
+SEQ_SIZES = st.one_of(st.integers(LIMIT - 2, LIMIT + 10), st.sampled_from([1030, 1100]))     # (items; each costs time)
+# lists that look like the (op, arg, op, arg..) run of T steps glom keeps internally, and lists that do not
+SEGMENT_LISTS = [[['s', '.'], ['s', 'a']], [['i', 1]], [['s', 'a'], ['s', 'b']], [], [['s', '['], ['i', 0]],
+                 [['s', 'P'], ['s', 'x']], [['s', '.'], ['s', 'a'], ['s', '['], ['i', 0]], [['s', 'x'], ['none']],
+                 [['s', '('], ['tuple', [['tuple', []], ['dict', []]]]], [['none']], [['s', '.']]]
+
+
+def gen_builtin_slice(draw):
+    """a slice with a builtin among its parts (possibly through a further slice)"""
+    part = st.sampled_from([None, None, 0, 1, -1, ['builtin', 'int'], ['builtin', 'len']])
+    parts = [draw(part), draw(part), draw(part)]
+    if not any(isinstance(x, list) for x in parts):
+        parts[draw(st.integers(0, 2))] = ['builtin', draw(st.sampled_from(BUILTINS))]
+    if draw(st.integers(0, 5)) == 0:
+        outer = [None, None, None]
+        outer[draw(st.integers(0, 2))] = ['slice', parts]
+        return ['slice', outer]
+    return ['slice', parts]
+
+
+def gen_special_lit(draw, cls):
+    if cls == 'slice-nested-builtin':
+        return gen_builtin_slice(draw)
+    if cls == 'float-nonfinite':
+        return ['fnf', draw(st.sampled_from(['inf', '-inf', 'nan']))]
+    if cls == 'long-str':
+        unit = draw(st.sampled_from(['k', 'ab', "'", 'h\xe9', '\\', '\xff', '.']))
+        n = -(-draw(LONG_SIZES) // len(unit))
+        if ord(max(unit)) < 256 and draw(st.integers(0, 3)) == 0:
+            return ['brep', unit, n]
+        return ['srep', unit, n]
+    if cls == 'long-int':
+        r = ['pow10', draw(LONG_SIZES), draw(st.integers(0, 9))]
+        return r + [-1] if draw(st.integers(0, 3)) == 0 else r
+    if cls == 'long-seq':
+        k = draw(st.integers(0, 4))
+        if k == 0:
+            return ['drange', draw(SEQ_SIZES)]
+        items = [[['i', 0]], [['i', 0]], [['s', 'a'], ['none']], [['i', 1], ['tuple', []], ['f', 0.5]]][draw(st.integers(0, 3))]
+        return ['rep', 'tuple' if k <= 2 else 'list', items, -(-draw(SEQ_SIZES) // len(items))]
+    if cls == 'long-nested-T':
+        steps = draw(st.sampled_from([[['.', 'abcd']], [['.', 'a'], ['[', ['i', 0]]], [['.', 'k'], ['[', ['s', 'x y']], ['.', 'b']]]))
+        per = sum(_step_len(s_) for s_ in steps)
+        return ['Trep', draw(st.sampled_from(['T', 'T', 'S'])), steps, -(-draw(LONG_SIZES) // per)]
+    if cls == 'path-list-segment':
+        if draw(st.integers(0, 3)) == 0:
+            return ['list', [gen_lit(draw, 0) for _ in range(draw(st.integers(0, 3)))]]
+        return ['list', draw(st.sampled_from(SEGMENT_LISTS))]
+    raise ValueError(cls)
+
+
+def gen_carrier_step(draw, lit, root, direct_ok):
+    """a T step that carries the literal at a drawn position"""
+    kinds = ['tuple1', 'nested-tuple', 'slice-part', 'list-item']
+    if direct_ok:
+        kinds += ['index', 'index', 'tuple-member']
+    if root != 'A':
+        kinds += ['arg', 'arg', 'kw', 'list-arg']
+    k = draw(st.sampled_from(kinds))
+    if k == 'index':
+        return ['[', lit]
+    if k == 'tuple1':
+        return ['[', ['tuple', [lit]]]
+    if k == 'tuple-member':
+        return ['[', ['tuple', [['i', 1], lit]]]
+    if k == 'nested-tuple':
+        return ['[', ['tuple', [['tuple', [['i', 1], lit]], ['i', 3]]]]
+    if k == 'slice-part':
+        parts = [draw(st.sampled_from([None, 1])), draw(st.sampled_from([None, 2])), None]
+        parts[draw(st.integers(0, 2))] = lit
+        return ['[', ['slice', parts]]
+    if k == 'list-item':
+        return ['[', ['list', [lit]]]
+    if k == 'arg':
+        return ['(', [lit], []]
+    if k == 'kw':
+        return ['(', [], [['p', lit]]]
+    return ['(', [['list', [['i', 0], lit]]], []]
+
+
+def gen_special(draw):
+    """None (most cases), or one of the constructed classes to be planted into the case"""
+    return draw(st.sampled_from(SPECIAL_POOL))
+
+
+def plant_in_steps(draw, steps, root, cls):
+    lit = gen_special_lit(draw, cls)
+    # (a slice that IS the index, or a direct member of an index tuple, is written with colons: not the nested class)
+    steps.insert(draw(st.integers(0, len(steps))), gen_carrier_step(draw, lit, root, cls != 'slice-nested-builtin'))
+    if root == 'S' and steps[0][0] == '(':
+        steps.insert(0, ['.', 'k'])       # S(...) on the bare root is the scope-assignment form
+    return steps
+
+
+def plant_in_parts(draw, parts, cls):
+    lit = gen_special_lit(draw, cls)
+    if cls == 'path-list-segment' or (cls != 'long-nested-T' and draw(st.booleans())):
+        part = ['P', lit]                 # (a T expression given to Path is a run of steps, never a plain segment)
+    else:
+        part = ['T', [gen_carrier_step(draw, lit, 'T', cls != 'slice-nested-builtin')]]
+    parts.insert(draw(st.integers(0, len(parts))), part)
+    return parts
+
+
 def gen_lit(draw, depth=2):
     if depth == 2 and draw(st.sampled_from(range(25))) == 0:
         # a literal nested deeper than reprlib's default level limit
@@ -55,13 +318,16 @@ def gen_lit(draw, depth=2):
         for _ in range(draw(st.integers(6, 9))):
             r = [draw(st.sampled_from(['list', 'tuple', 'list'])), [r]]
         return r
-    k = draw(st.integers(0, 13))
+    k = draw(st.integers(0, 14))
     if k <= 1:
         return ['i', draw(st.integers(-5, 12))]
     if k <= 3:
         return ['s', draw(st.sampled_from(STRS))]
     if k == 4:
-        return ['f', draw(st.sampled_from([0.5, -1.25, 1e20, 3.0]))]
+        x = draw(st.sampled_from([0.5, -1.25, 1e20, 3.0, 'inf', '-inf', 'nan']))
+        return ['fnf', x] if isinstance(x, str) else ['f', x]
+    if k == 14:
+        return gen_slice(draw)       # a slice as a plain value (call argument, tuple / list member, ..)
     if k == 5:
         return ['none']
     if k == 6:
@@ -83,9 +349,17 @@ def gen_lit(draw, depth=2):
     return ['list', [gen_lit(draw, depth - 1) for _ in range(draw(st.integers(0, 2)))]]
 
 
+RICH_PARTS = [['builtin', 'int'], ['builtin', 'len'], ['fnf', 'inf'], ['fnf', '-inf'], ['fnf', 'nan'], ['f', 0.5],
+              ['s', 'a'], ['slice', [None, ['builtin', 'str'], None]], ['slice', [0, 1, None]]]
+
+
 def gen_slice(draw):
     part = st.sampled_from([None, None, 0, 1, 2, -1, -2, 5])
-    return ['slice', [draw(part), draw(part), draw(st.sampled_from([None, None, 1, 2, -1, -2]))]]
+    parts = [draw(part), draw(part), draw(st.sampled_from([None, None, 1, 2, -1, -2]))]
+    if draw(st.integers(0, 7)) == 0:
+        # a part that is no int: a builtin, a float (finite or not), a string, a further slice
+        parts[draw(st.integers(0, 2))] = draw(st.sampled_from(RICH_PARTS))
+    return ['slice', parts]
 
 
 def gen_item_arg(draw, depth):
@@ -131,10 +405,13 @@ def gen_steps(draw, n, root, depth=2):
     return steps
 
 
-def gen_t(draw):
+def gen_t(draw, special=None):
     root = draw(st.sampled_from(['T', 'T', 'T', 'S', 'A']))
     n = draw(st.integers(0, 8 if runner_mod.thorough() else 6))
-    return {'kind': 't', 'root': root, 'steps': gen_steps(draw, n, root)}
+    steps = gen_steps(draw, n, root)
+    if special is not None:
+        steps = plant_in_steps(draw, steps, root, special)
+    return {'kind': 't', 'root': root, 'steps': steps}
 
 
 def gen_path_parts(draw, maxparts=5):
@@ -210,10 +487,14 @@ def _fix_s_call(root, parts):
 
 
 def gen_roundtrip(draw):
-    if draw(st.integers(0, 3)) == 0:
+    special = gen_special(draw)
+    if special == 'path-list-segment' or draw(st.integers(0, 3)) == 0:
         root = draw(st.sampled_from(['T', 'T', 'S']))
-        return {'kind': 'path', 'root': root, 'parts': _fix_s_call(root, gen_path_parts(draw))}
-    return gen_t(draw)
+        parts = gen_path_parts(draw)
+        if special is not None:
+            parts = plant_in_parts(draw, parts, special)
+        return {'kind': 'path', 'root': root, 'parts': _fix_s_call(root, parts)}
+    return gen_t(draw, special)
 
 
 # -- structural equality of operation tuples ---------------------------------
@@ -301,11 +582,14 @@ def _nontrivial(recipe):
 
 def check_roundtrip(recipe, ctx):
     if recipe['kind'] == 't':
-        x = tx.build_t(recipe['root'], recipe['steps'])
+        classes = set()
+        steps_classes(recipe['steps'], classes)
+        x = tx.build_t(recipe['root'], expand_steps(recipe['steps']))
     else:
-        x = build_path(recipe['parts'], recipe['root'])
-    ctx.label('kind-' + recipe['kind'], 'root-' + recipe['root'])
-    ctx.nontrivial(_nontrivial(recipe))
+        classes = parts_classes(recipe['parts'], set())
+        x = build_path(expand_parts(recipe['parts']), recipe['root'])
+    ctx.label('kind-' + recipe['kind'], 'root-' + recipe['root'], *sorted(classes))
+    ctx.nontrivial(_nontrivial(recipe) or bool(classes))
     try:
         r = repr(x)
     except Exception as e:
@@ -351,7 +635,14 @@ def _ops(v):
 
 def gen_seq(draw):
     root = draw(st.sampled_from(['T', 'T', 'S']))
-    return {'root': root, 'p': _fix_s_call(root, gen_path_parts(draw, 4)), 'q': gen_path_parts(draw, 3)}
+    special = gen_special(draw)
+    p, q = gen_path_parts(draw, 4), gen_path_parts(draw, 3)
+    if special is not None:
+        if draw(st.booleans()):
+            p = plant_in_parts(draw, p, special)
+        else:
+            q = plant_in_parts(draw, q, special)
+    return {'root': root, 'p': _fix_s_call(root, p), 'q': q}
 
 
 def values_equal(got, exp_items):
@@ -364,11 +655,20 @@ def items_equal(got, exp_items):
 
 def check_seq(recipe, ctx):
     root = recipe['root']
+    classes = parts_classes(recipe['p'], parts_classes(recipe['q'], set()))
+    recipe = {'root': root, 'p': expand_parts(recipe['p']), 'q': expand_parts(recipe['q'])}
     p = build_path(recipe['p'], root)
     q = build_path(recipe['q'])
     ip, iq = path_items(recipe['p']), path_items(recipe['q'])
     ctx.nontrivial(len(ip) >= 2 and len(iq) >= 1)
-    ctx.label('len-%d' % min(len(ip), 4))
+    ctx.label('len-%d' % min(len(ip), 4), *sorted(classes))
+    # a Path is a value: its text can be asked for whatever its segments are (finding F77: repr(Path([1])) raised)
+    for what in (p, q):
+        try:
+            repr(what)
+        except Exception as e:
+            raise Mismatch('repr-raises', 'repr of the Path with items %r: %s: %s'
+                           % (ip if what is p else iq, type(e).__name__, e))
     if len(p) != len(ip):
         raise Mismatch('len', '%r: len %d, steps %d' % (p, len(p), len(ip)))
     if not values_equal(p.values(), ip):
@@ -524,8 +824,16 @@ CLASSIFIERS = {'F13-negative-step-slice': is_f13, 'F12-path-repr-root': is_f12}
 
 SUBS = [
     Sub('roundtrip', check_roundtrip, gen=gen_roundtrip, quick=6000, thorough=20000,
-        floors={'kind-path': 0.1, 'root-S': 0.1, 'root-A': 0.05}),
-    Sub('seq', check_seq, gen=gen_seq, quick=3000, thorough=10000, floors={'compose-ok': 0.02}),
+        floors={'kind-path': 0.1, 'root-S': 0.1, 'root-A': 0.05,
+                # constructed classes (findings F77-F80); lowest share observed at seeds 1-3:
+                # .067 / .080 / .038 / .023 / .0127 / .0168 / .049
+                'slice-nested-builtin': 0.03, 'float-nonfinite': 0.04, 'long-str': 0.015, 'long-int': 0.012,
+                'long-seq': 0.006, 'long-nested-T': 0.008, 'path-list-segment': 0.025}),
+    Sub('seq', check_seq, gen=gen_seq, quick=3000, thorough=10000,
+        floors={'compose-ok': 0.02,
+                # lowest share observed at seeds 1-3: .045 / .067 / .028 / .028 / .0137 / .0083 / .045
+                'slice-nested-builtin': 0.02, 'float-nonfinite': 0.035, 'long-str': 0.015, 'long-int': 0.012,
+                'long-seq': 0.006, 'long-nested-T': 0.004, 'path-list-segment': 0.02}),
     Sub('index', check_index, enum=enum_index),
     fuzzrun.fuzz_sub('fuzz-roundtrip', 'hyp:c18:roundtrip', runs=30000, campaigns=4, replay_sub='roundtrip'),
 ]
